@@ -48,7 +48,8 @@ def build_transparent(r, name, level):
         else:
             fname = r.choice(["f", "s", "x", "inner", "field0", "value"])
             decl = "%s { %s: %s }" % (idents[i], fname, INNERS[key][0])
-        attr = r.choice(["#[strum(transparent)]", "#[strum(transparent)]", "#[strum(transparent, serialize = \"ignored\")]"])
+        attr = r.choice(["#[strum(transparent)]", "#[strum(transparent)]", "#[strum(transparent, serialize = \"ignored\")]",
+                         "#[strum(transparent, to_string = \"ignored-ts\")]", "#[strum(to_string = \"ts\")]\n    #[strum(transparent)]"])
         lines.append("    %s\n    %s," % (attr, decl))
         tv.append((idents[i], fname, key))
     lines.insert(r.randint(0, len(lines)), "    %s," % idents[n])
@@ -57,6 +58,9 @@ def build_transparent(r, name, level):
     src = "#[derive(Debug, Clone, %s)]\n" % ", ".join("strum::" + d for d in ders)
     if style:
         src += "#[strum(serialize_all = %s)]\n" % rs_str(style)
+    pref = r.choice([None, None, "pfx/"])
+    if pref:
+        src += "#[strum(prefix = %s)]\n" % rs_str(pref)
     src += "pub enum %s {\n%s\n}\n" % (name, "\n".join(lines))
     body = src + "pub fn drive(m: &mut vmon::Mon) {\n"
     for ident, fname, key in tv:
@@ -96,7 +100,7 @@ def check(run):
     i = 0
     while len(units) < want:
         i += 1
-        s = strgen.build(r, "D%d" % i, ["EnumString", "Display"], n=r.choice([1, 2, 3, 4, 6]), generics_pool=(None, None, "T", "N"))
+        s = strgen.build(r, "D%d" % i, ["EnumString", "Display"], n=r.choice([1, 2, 3, 4, 6]), generics_pool=(None, None, "T", "N"), allow_prefix=True)
         dv = [v for v in s.variants if v.default and not v.disabled]
         if not dv:
             # force one
